@@ -8,6 +8,7 @@ import GlonaxModel.Driver.Input
 import GlonaxModel.Driver.Bus
 import GlonaxModel.Driver.Authority
 import GlonaxModel.Driver.Tasks
+import GlonaxModel.Driver.Kin
 open Glonax.Driver
 
 def dispatch (prop : String) (inp out : List String) : Verdict :=
@@ -28,6 +29,7 @@ def dispatch (prop : String) (inp out : List String) : Verdict :=
   | "C10" => AuthDrv.check "C10" inp out
   | "C20" => AuthDrv.check "C20" inp out
   | "C16" => TaskDrv.check inp out
+  | "C19" => KinDrv.check inp out
   | "C08" => DrvDrv.check "C08" inp out
   | "C11" => DrvDrv.check "C11" inp out
   | "C12" => DrvDrv.check "C12" inp out
